@@ -35,7 +35,17 @@ func init() {
 		if pm == nil {
 			ir.Fail("parent-map helper not found")
 		}
-		poolReadersRevalidate(c, func(f *ir.Func) bool { return len(f.CallsTo(true, pm)) > 0 })
+		poolReadersRevalidate(c, func(v *ir.Func) bool { // v: the method's expanded view
+			if len(v.CallsTo(true, pm)) > 0 {
+				return true
+			}
+			for _, fn := range v.Inlined {
+				if fn == pm {
+					return true
+				}
+			}
+			return false
+		})
 	}})
 }
 
